@@ -1064,6 +1064,13 @@ func Run(o lib.Opts) {
 		{Kind: "mod", Seed: 65, Index: true, Attest: true, Layers: 2, Empties: true, Target: "repo", Opts: []Opt{{K: "rmcreated", N: 1}}},
 		{Kind: "mod", Seed: 66, Index: true, Attest: true, Layers: 2, Target: "same", Opts: []Opt{{K: "toreferrers"}, {K: "label", N: 1}}},
 		{Kind: "mod", Seed: 67, Layers: 3, Empties: true, Rebase: true, Target: "repo", Opts: []Opt{{K: "rebase"}}},
+		// rebase alone, compared with the rebase model: old bases with and without leading empty history lines
+		{Kind: "mod", Seed: 81, Layers: 1, Empties: true, Rebase: true, Target: "same", Opts: []Opt{{K: "rebase"}}},
+		{Kind: "mod", Seed: 82, Layers: 2, Empties: false, Rebase: true, Target: "repo", Opts: []Opt{{K: "rebase"}}},
+		{Kind: "mod", Seed: 83, Layers: 4, Empties: true, Rebase: true, Target: "reg", Docker: true, Opts: []Opt{{K: "rebase"}}},
+		{Kind: "mod", Seed: 84, Layers: 3, Empties: false, Rebase: true, Target: "dir", Plain: true, Opts: []Opt{{K: "rebase"}}},
+		{Kind: "mod", Seed: 85, Layers: 2, Empties: true, Rebase: true, Target: "same", Zstd: true, Opts: []Opt{{K: "rebase"}}},
+		{Kind: "mod", Seed: 86, Layers: 4, Empties: false, Rebase: true, Target: "repo", Opts: []Opt{{K: "rebase"}}},
 		{Kind: "mod", Seed: 68, Layers: 2, Zstd: true, Target: "reg", Opts: []Opt{{K: "togzip"}, {K: "filetime"}}},
 	}
 	n := o.Scale(220, 3000)
